@@ -4,6 +4,7 @@ import (
 	"fmt"
 	"mime"
 	"net/http"
+	"net/http/httptest"
 	"strings"
 	"sync/atomic"
 	"testing"
@@ -44,6 +45,17 @@ var snippets = []snippet{
 	{"subscription", "{ count }", "count", ""},
 }
 
+// getBodies: content type and body a GET request may carry besides its URL.
+var getBodies = [][2]string{
+	{"application/graphql", "mutation { m3 }"},
+	{"application/graphql", "mutation { m4 m1 { id } }"},
+	{"application/json", `{"query":"mutation { m3 }"}`},
+	{"application/json", `{"query":"mutation A { m3 } query B { i }","operationName":"A"}`},
+	{"application/x-www-form-urlencoded", "query=mutation+%7B+m3+%7D"},
+	{"application/x-www-form-urlencoded", "mutation { m3 }"},
+	{"multipart/form-data; boundary=b", "--b\r\nContent-Disposition: form-data; name=\"operations\"\r\n\r\n{\"query\":\"mutation { m3 }\"}\r\n--b\r\nContent-Disposition: form-data; name=\"map\"\r\n\r\n{}\r\n--b--\r\n"},
+}
+
 type Case struct {
 	Ops       []int    `json:"ops"` // indices into snippets; operation k is named "Op<k>" unless Anonymous
 	Anonymous bool     `json:"anonymous"`
@@ -61,6 +73,10 @@ type Case struct {
 	// same request is sent this many times in a row, every answer must satisfy the contract
 	QueryCache bool `json:"query_cache,omitempty"`
 	Repeat     int  `json:"repeat,omitempty"`
+	// GetBody / GetBodyCT: a GET request that also carries a body of this content type (the body
+	// names a mutation; a GET is answered from its URL whatever else it carries)
+	GetBody   string `json:"get_body,omitempty"`
+	GetBodyCT string `json:"get_body_content_type,omitempty"`
 }
 
 func (c Case) document() string {
@@ -182,6 +198,14 @@ func checkAttempt(c Case, s *proj.Server, h *handler.Server, recoversP *atomic.I
 		hr.Header.Set("Content-Type", "application/x-www-form-urlencoded")
 	} else {
 		hr = req.Build()
+	}
+	if c.Transport == "get" && c.GetBodyCT != "" {
+		h2 := httptest.NewRequest("GET", hr.URL.String(), strings.NewReader(c.GetBody))
+		for k, v := range hr.Header {
+			h2.Header[k] = v
+		}
+		h2.Header.Set("Content-Type", c.GetBodyCT)
+		hr = h2
 	}
 	e := univ.NewExec(plan.New(3))
 	s.U.SetExec(e)
@@ -384,6 +408,11 @@ func gen(t *rapid.T) Case {
 	c.Order = rapid.Permutation(all).Draw(t, "order")
 	if rapid.IntRange(0, 9).Draw(t, "droptransport") == 0 {
 		c.Order = c.Order[:len(c.Order)-2]
+	}
+	if c.Transport == "get" && rapid.IntRange(0, 2).Draw(t, "getbody") == 0 {
+		i := rapid.IntRange(0, len(getBodies)-1).Draw(t, "whichgetbody")
+		c.GetBodyCT, c.GetBody = getBodies[i][0], getBodies[i][1]
+		vfrun.Label("get-with-body:" + c.GetBodyCT)
 	}
 	switch {
 	case c.Damage == "variable":
